@@ -522,6 +522,7 @@ func propC04(cx *sim.Ctx) {
 			swf := sim.NewSimWriter(c.FailCall)
 			swf.Sticky = sim.Bool(cx.T, "sticky")
 			swf.Short = sim.Bool(cx.T, "short")
+			swf.Full = sim.Intn(cx.T, 3, "fullcount") == 2
 			wrf := &oj.Writer{Options: optW}
 			_, p = guardStr(func() string { err = wrf.Write(swf, data); return "" })
 			cx.Exec()
@@ -646,6 +647,7 @@ func propC04(cx *sim.Ctx) {
 		if c.FailCall >= 0 {
 			swf := sim.NewSimWriter(c.FailCall)
 			swf.Short = sim.Bool(cx.T, "short")
+			swf.Full = sim.Intn(cx.T, 3, "fullcount") == 2
 			_, p = guardStr(func() string { err = pretty.WriteJSON(swf, data, parg, c.Align, &optPW); return "" })
 			cx.Exec()
 			if swf.FaultHit {
